@@ -249,6 +249,23 @@ func (f *Frame) closeBackEdge(c *cursor, from, h *ssa.BasicBlock, cond Term) {
 			f.checkOwnInv(c.st, reach, a, h.Instrs[0], "holds again at the loop's back edge")
 		}
 	}
+	if ls := f.loopSpec(li); ls != nil && len(ls.Steps) != 0 {
+		idx := len(from.Instrs) - 1
+		for _, cl := range ls.Steps {
+			env := &SpecEnv{f: f, names: map[string]Term{}, types: map[string]types.Type{}, cur: c.st, old: f.entry}
+			env.lookup = f.resolverAtPoint(from, idx, nil, c.st)
+			t, err := env.evalBool(cl.Expr)
+			if err != nil {
+				e.specError("%s: loop step %s: %v", e.Key, cl.Name, err)
+				continue
+			}
+			props := cl.Props
+			if props == nil {
+				props = f.invProps(cl)
+			}
+			e.addOblig("step", cl.Name, props, e.P.position(from.Instrs[idx].Pos()), reach, t)
+		}
+	}
 	for _, dec := range f.loopVariants(li) {
 		// variant at header (havocked state) vs at back edge
 		hin := f.headerState(h)
